@@ -7,16 +7,6 @@
 // T6: x86-64 target
 global size_of usize == 8;
 
-#[derive(Debug, PartialEq, Eq)]
-pub enum ErrorCode {
-    Message, Io, EofWhileParsing, ExpectedColon, ExpectedArrayCommaOrEnd, ExpectedObjectCommaOrEnd,
-    InvalidLiteral, InvalidJsonValue, ExpectedObjectStart, ExpectedArrayStart, InvalidEscape,
-    InvalidNumber, NumberOutOfRange, InvalidUnicodeCodePoint, InvalidUTF8,
-    ControlCharacterWhileParsingString, ExpectObjectKeyOrEnd, TrailingComma, TrailingCharacters,
-    RecursionLimitExceeded, GetInEmptyObject, GetUnknownKeyInObject, GetInEmptyArray,
-    GetIndexOutOfArray, UnexpectedVisitType, InvalidSurrogateUnicodeCodePoint, FloatMustBeFinite,
-    ExpectedNumericKey, ExpectedQuote, SerExpectKeyIsStrOrNum,
-}
 use ErrorCode::*;
 pub type Result<T> = core::result::Result<T, Error>;
 
@@ -198,8 +188,11 @@ pub trait Reader<'de> {
         ensures r@ == self.data();
 
     // deferred UTF-8 verdict of the up-front validation (simdutf8, T4): no functional contract
+    // A reported error is located inside the input (`err_ok` is defined by each unit: the parser units
+    // do not look inside errors, unit `errors` defines it as offset/line/column correctness).
     fn check_utf8_final(&self) -> (r: Result<()>)
-        requires self.wf();
+        requires self.wf(),
+        ensures r.is_err() ==> err_ok(r.unwrap_err(), self.data());
 
     // re-attach a sub-slice to its owner (Bytes/FastStr carriers are T4): the bytes are the same
     fn slice_ref(&self, subset: &'de [u8]) -> (r: JsonSlice<'de>)
